@@ -22,6 +22,9 @@ def run_mutant(check, relpath, old, new, tier="quick", count=1, extra_env=None):
     scratch = tempfile.mkdtemp(prefix="verif-mut-", dir=os.environ.get("VERIF_SCRATCH", "/tmp"))
     try:
         shutil.copytree("/repo/stepup", os.path.join(scratch, "stepup"))
+        # the example projects are test data (never mutated): visible through a link, so the checks
+        # that build them (C02 plans, C09/C10 mode C) run the same cases as on /repo
+        os.symlink("/repo/tests", os.path.join(scratch, "tests"))
         path = os.path.join(scratch, relpath)
         with open(path) as fh:
             text = fh.read()
@@ -32,10 +35,17 @@ def run_mutant(check, relpath, old, new, tier="quick", count=1, extra_env=None):
             fh.write(text)
         env = dict(os.environ, VERIF_REPO=scratch, VERIF_MUTANT="1")
         env.update(extra_env or {})
-        proc = subprocess.run(
-            [os.path.join(VERIF, "check"), check, "--tier", tier],
-            env=env, capture_output=True, text=True, timeout=int(os.environ.get('MUTANT_TIMEOUT', '900')),
-        )
+        try:
+            proc = subprocess.run(
+                [os.path.join(VERIF, "check"), check, "--tier", tier],
+                env=env, capture_output=True, text=True, timeout=int(os.environ.get('MUTANT_TIMEOUT', '1500')),
+            )
+        except subprocess.TimeoutExpired:
+            return "timeout", "check did not finish in time"
+        if proc.returncode not in (0, 1, 2):
+            return f"crash({proc.returncode})", (proc.stdout + proc.stderr)[-3000:]
+        if "Traceback (most recent call last)" in proc.stderr and "VIOLATION" not in proc.stdout:
+            return "crash", (proc.stdout + proc.stderr)[-3000:]
         return proc.returncode, proc.stdout[-3000:]
     finally:
         shutil.rmtree(scratch, ignore_errors=True)
